@@ -2,7 +2,7 @@ from common import Ctx, RULES
 from legs import run_classified_leg
 
 PID = "C18"
-COQ_FILES = ["Model/Base.v", "Model/Reloc.v", "Proofs/RelocProofs.v", "Properties/C18.v"]
+COQ_FILES = ["Model/Base.v", "Model/Reloc.v", "Proofs/RelocProofs.v", "Gen/Reloc.v", "Ties/RelocTie.v", "Properties/C18.v"]
 RULES[PID] = ("e2e leg: one debuggee source built as PIE / non-PIE dynamic (-C relocation-model=static) / static non-PIE (+crt-static) / static-PIE, "
               "a Rust cdylib linked at startup (DT_NEEDED + rpath) and a second cdylib loaded, closed and re-loaded with dlopen/dlclose by a seeded "
               "script (e exe fn, a/u startup-lib fns, o dlopen, c dlclose, t/i dlopen-lib fns, m marker); per session 0-5 breakpoint requests by "
